@@ -44,17 +44,25 @@ func newScript(base string, over map[int]int64, record bool) *script {
 
 func (s *script) Seed(int64) {}
 
+// drawBudget bounds one Obfuscate call: a constant stream can make a retry-until-different loop spin forever,
+// which says nothing about a real generator; the harness reports such runs as inconclusive.
+const drawBudget = 400000
+
 func (s *script) Int63() int64 {
 	i := s.n
 	s.n++
+	if s.n > drawBudget {
+		panic("verif: draw budget exceeded")
+	}
 	var v int64
 	switch {
 	case s.prng != nil:
 		v = s.prng.Int63()
 	case s.base == "zero":
-		v = 0
+		// near-zero stream; a constant stream would spin forever inside math/rand's own rejection sampling
+		v = []int64{0, 1, 2, 3, 5, 7, 11, 13}[i%8] << 32
 	case s.base == "max":
-		v = 1<<63 - 1
+		v = (1<<31-1-[]int64{0, 1, 2, 3, 5, 7, 4096, 1 << 20}[i%8])<<32 | 0xffffffff
 	case s.base == "count":
 		s.cnt += 0x0101010101010101
 		v = s.cnt & (1<<63 - 1)
@@ -125,6 +133,7 @@ type result struct {
 	Untouched  int              `json:"untouched_ok"`
 	Violations []map[string]string `json:"violations"`
 	Descs      []string         `json:"descs"`
+	Inconclusive []string       `json:"inconclusive"`
 }
 
 func literalSource(pkg, form string, data []byte) string {
@@ -244,6 +253,10 @@ func main() {
 		id := len(insts)
 		src, _, err := obfuscateOnce(id, c, over, false)
 		if err != nil {
+			if strings.Contains(err.Error(), "draw budget exceeded") {
+				res.Inconclusive = append(res.Inconclusive, desc)
+				return
+			}
 			addViolation(fmt.Sprintf("obfuscate-error:obf%d:%s", c.Obf, c.Form), fmt.Sprintf("%s: %v", desc, err))
 			return
 		}
@@ -264,6 +277,10 @@ func main() {
 			continue
 		}
 		_, sc, err := obfuscateOnce(0, c, nil, true)
+		if err != nil && strings.Contains(err.Error(), "draw budget exceeded") {
+			res.Inconclusive = append(res.Inconclusive, base+" (base script)")
+			continue
+		}
 		if err != nil {
 			addViolation(fmt.Sprintf("obfuscate-error:obf%d:%s", c.Obf, c.Form), fmt.Sprintf("%s: %v", base, err))
 			continue
